@@ -112,11 +112,12 @@ def make_case(rng):
         key = frozenset((part[a], part[b]))
         cutcount[key] = cutcount.get(key, 0) + 1
     # render fragments, then write slashes from the geometry and the written order
+    bracket_p = rng.choice([0.0, 0.0, 0.4])      # bracket atoms ([CH3], [CH]) also directly behind a slash
     frags, frag_atoms = {}, {}
     renders = {}
     order_index = {}
     for i, comp in enumerate(comps):
-        r = M.render_fragment(rng, g, sorted(comp), desc, opts={'explicit_single': 0.0, 'leading': rng.random() < 0.3})
+        r = M.render_fragment(rng, g, sorted(comp), desc, opts={'explicit_single': 0.0, 'leading': rng.random() < 0.3, 'bracket_p': bracket_p})
         renders[i] = r
         for k, n in enumerate(r['atoms']):
             order_index[n] = k
@@ -126,7 +127,7 @@ def make_case(rng):
         frags['F%d' % i] = finish_text(r['tokens'], idx, slashes, chiral, g)
         frag_atoms['F%d' % i] = r['atoms']
     # uncut reference
-    r0 = M.render_fragment(rng, g, sorted(g.nodes), {}, opts={'explicit_single': 0.0})
+    r0 = M.render_fragment(rng, g, sorted(g.nodes), {}, opts={'explicit_single': 0.0, 'bracket_p': bracket_p})
     oi0 = {n: k for k, n in enumerate(r0['atoms'])}
     sl0 = S.slash_tokens(stereo, oi0, rng)
     single = finish_text(r0['tokens'], oi0, sl0, chiral, g)
@@ -155,6 +156,8 @@ def make_case(rng):
         if any(any(frozenset((c, nb)) in cut_edges for nb in g[c]) for c in chiral):
             feats.add('cut_next_to_stereocentre')
     feats.add('double_bonds_%d' % len(stereo))
+    if bracket_p:
+        feats.add('bracket_atoms')
     items = list(frags.items())
     rng.shuffle(items)
     return dict(g_edges=[[a, b, d['order']] for a, b, d in g.edges(data=True)], frag_string='{' + ','.join('#%s=%s' % kv for kv in items) + '}',
